@@ -94,6 +94,11 @@ def inject(c, fault, meth):
     elif fault == 'false_after_fill':
         # false only once the (fixed) horizon is written in: T = 1
         st.subject_to(st.T <= 0.5)
+    elif fault == 'spline_affine':
+        c.x3 = st.state(); c.u3 = st.control(); st.set_der(c.x3, c.u3 + 1)
+    elif fault == 'unknown_grid_integral': st.add_objective(st.integral(c.x ** 2, grid='foo'))
+    elif fault == 'unknown_grid_sum': st.add_objective(st.sum(c.x ** 2, grid='integrator'))
+    elif fault == 'alg_without_algebraic': st.add_alg(c.x - 2 * c.u)
     elif fault == 'spline_quadstate':
         c.xq = st.state(quad=True); st.set_der(c.xq, c.x ** 2); st.add_objective(st.at_tf(c.xq))
     elif fault == 'inf_nonpolynomial':
